@@ -456,12 +456,20 @@ func judge(kind string, nw int, events []ev, settled bool, r result) (string, st
 
 func main() {
 	c := vlib.Init("exploration")
-	dir, err := os.MkdirTemp("/dev/shm", "c17.")
+	// one scratch directory on tmpfs for the whole run: workers get a subdirectory of the parent's, which the
+	// parent removes at the end (workers are killed, they cannot clean up)
+	var dir string
+	var err error
+	if wd := os.Getenv("C17_WORKER"); wd != "" {
+		dir = filepath.Join(wd, fmt.Sprintf("w%d", os.Getpid()))
+		err = os.MkdirAll(dir, 0o755)
+	} else {
+		dir, err = os.MkdirTemp("/dev/shm", "c17.")
+	}
 	if err != nil {
 		fmt.Println("ENGINE-ERROR", err)
 		os.Exit(2)
 	}
-	defer os.RemoveAll(dir)
 	kinds := []string{"fifo", "unix", "tcp", "unixgram", "udp"}
 	type job struct {
 		kind    string
@@ -584,7 +592,7 @@ func main() {
 	}
 	spawn := func(k int) *wproc {
 		cmd := exec.Command(os.Args[0], os.Args[1:]...)
-		cmd.Env = append(os.Environ(), "C17_WORKER=1")
+		cmd.Env = append(os.Environ(), "C17_WORKER="+dir)
 		ef, _ := os.Create(filepath.Join(dir, fmt.Sprintf("worker%d.stderr", k)))
 		cmd.Stderr = ef
 		stdin, _ := cmd.StdinPipe()
@@ -672,6 +680,7 @@ func main() {
 	for _, p := range procs {
 		_ = p.cmd.Process.Kill()
 	}
+	os.RemoveAll(dir) // Finish exits the process: deferred calls do not run
 	c.Set("event_orders", len(jobs))
 	c.Assume = []string{
 		"the goroutine schedule inside the stream relative to the kernel is not controlled (network poller); only the order of environment events is exhaustive; per-connection framing under all chunkings is C15",
